@@ -33,6 +33,7 @@ type SpecEnv struct {
 	depth   int
 	transparent bool // reveal every opaque spec function (used when proving lemmas)
 	bound   []string // SMT names of the variables bound by enclosing quantifiers
+	alias   map[string]string // renamed identifiers of the function the clause belongs to (g_alias.go)
 }
 
 func (env *SpecEnv) with(name string, tv TV) *SpecEnv {
@@ -364,6 +365,13 @@ func (env *SpecEnv) evalIdent(name string) TV {
 		if tv, ok := env.resolve(name); ok {
 			return tv
 		}
+	}
+	if a, ok := env.alias[name]; ok && a != name {
+		// the function no longer declares this name; the identifier that took its place
+		env.fc.note("contract name %q resolved to the renamed identifier %q", name, a)
+		n := *env
+		n.alias = nil
+		return n.evalIdent(a)
 	}
 	if env.pkg != nil {
 		if o := env.pkg.Scope().Lookup(name); o != nil {
